@@ -7,13 +7,22 @@ rationals), Trace_Kinematics.tla (judge of recorded executions).
 1. TLC, exhaustive: for every neutron (t, L, sin theta) of the rational grid, every start coordinate
    and every walk of <= 4 conversions through the transcribed graph, the value held equals the
    physical definition (RouteAgreement), returns to a coordinate return its value (RoundTrip),
-   Q d = 2 pi (QdTwoPi).  Negative controls: factor 1/2 dropped in E(lambda); 2 pi for 4 pi.
+   Q d = 2 pi (QdTwoPi); the angle operand may be overwritten in place once (Retarget) and a new walk
+   started from the coordinate held - same invariants.  Negative controls: factor 1/2 dropped in
+   E(lambda); 2 pi for 4 pi; the sine of the angle remembered from the first use (stale_angle).
 2. spec -> code (M1): TLC prints every maximal walk with the exact rational value after each step.
    The driver replays each walk shape into the *real* kernels, fetched through the real graph
    tables elastic(origin)[target], feeding each kernel the *real* output of the previous one
    (accumulated walk), for blocks of grid neutrons laid out as scalar / 1-d / 2-d broadcast /
    per-pixel operands, decade scalings over 1e-9..1e9 SI, unit choices per argument, float64 /
    float32 data and auxiliary operands.
+   Hardening round: integer-typed data / auxiliary operands (int64, int32; values whose squares are
+   representable; a scipp DTypeError for a call with an integer operand is "not supported"), small
+   scattering angles (sin theta = 1e-3, 1e-6 are grid points of the TLC model), the same table laid
+   out differently in memory (dims listed in the other order, transposed view, window of a larger
+   table), event (binned) data operands, single-element 1-d operands, auxiliary operand *objects*
+   that live across calls and are overwritten in place, and at the end of the run a sample of the
+   replays done so far is replayed and judged once more in another order.
 3. code -> spec (M2): every real kernel call is one NDJSON event; TLC (Trace_Kinematics) judges the
    discrete facts (kernel wired to that edge, walk continuity, kernel signature, output unit,
    precision class, dims flags, closeness / round-trip / Q d flags, route-agreement flags, and the
@@ -31,6 +40,7 @@ property's numbers).  The code under test is never used as an oracle.
 from __future__ import annotations
 
 import inspect
+import os
 from fractions import Fraction
 
 import mpmath
@@ -52,9 +62,12 @@ KIND_UNITS = {
     'Q': tuple('1/' + u for u in lc.LENGTH_UNITS),
 }
 RULE = ('walk shape (start coordinate + sequence of graph edges, enumerated by TLC) x operand layout '
-        '{scalar, 1-d, 2-d broadcast, per-pixel} x data dtype x auxiliary dtype x unit per operand x '
-        'decade scaling; every grid neutron of the TLC model occurs as an element.  non-trivial = a '
-        'replay whose every kernel call returned, distinct by (walk shape, layout, dtypes, units, decades)')
+        '{scalar, 1-d, 2-d broadcast, per-pixel (also dims in the other order / transposed view / window of a '
+        'larger table), event data} x data dtype x auxiliary dtype (float64, float32, int64, int32) x unit per '
+        'operand x scaling; every grid neutron of the TLC model occurs as an element; a sample replayed again at '
+        'the end in another order.  non-trivial = a replay whose every kernel call returned, distinct by '
+        '(walk shape, layout, dtypes, units, scalings)')
+SI_LO, SI_HI = 1e-9, 1e9                     # the quantifier's range (SI), applied to integer operands
 
 
 # ------------------------------------------------------------------------------------ spec data
@@ -107,30 +120,57 @@ def graph_events():
 
 
 # ------------------------------------------------------------------------------------ a block
+class Skip(Exception):
+    """The drawn scenario is outside the quantifier / the stated assumptions: not evaluated."""
+
+
+def _int_window(rng, dtype, unit_si: float, spread: float):
+    """A value for the smallest element of an integer operand given in a unit of SI factor `unit_si`:
+    >= 1, squares representable, SI value inside the quantifier's 1e-9..1e9."""
+    lo = max(1.0, SI_LO / unit_si)
+    hi = min(float(lc.INT_LIMIT[dtype]), SI_HI / unit_si) / spread
+    if lo * 1.5 > hi:
+        raise Skip('no integer of this unit inside the range')
+    return 10 ** rng.uniform(np.log10(lo * 1.5), np.log10(hi))
+
+
 class Block:
     """A physical scenario: P pixels x X data points of grid neutrons and the operands built from them."""
 
-    def __init__(self, spec, rng, start, layout, xs, ps, dt_data, dt_aux, units, decades):
-        self.spec, self.start, self.layout = spec, start, layout
+    def __init__(self, spec, rng, start, layout, xs, ps, dt_data, dt_aux, units, decades, variant='',
+                 pool=None):
+        self.spec, self.start, self.layout, self.variant = spec, start, layout, variant
+        self.rng, self.pool = rng, pool
         self.xs, self.ps = xs, ps            # xs: [(t, L|None)], ps: [(L|None, (sn, sd))]
-        self.dt_data, self.dt_aux, self.units, self.decades = dt_data, dt_aux, units, decades
+        self.dt_data, self.dt_aux, self.units, self.decades = dt_data, dt_aux, units, dict(decades)
         P, X = len(ps), len(xs)
         self.P, self.X = P, X
         self.gp = [[(xs[x][0], xs[x][1] if xs[x][1] is not None else ps[p][0], ps[p][1][0], ps[p][1][1])
                     for x in range(X)] for p in range(P)]
-        if layout == 'perpixel':
+        if layout in ('perpixel', 'binned'):
             # every pixel its own time axis
             self.gp = [[(xs[(x + p) % X][0],) + self.gp[p][x][1:] for x in range(X)] for p in range(P)]
         self.pix_dims = [] if layout in ('scalar', '1d') else ['spectrum']
         self.ok = True
-        self._aux()
+        try:
+            self._aux()
+        except Skip:
+            self.ok = False
+
+    @property
+    def layout_name(self):
+        return self.layout + ('/' + self.variant if self.variant else '')
 
     # auxiliary operands (per pixel): Ltotal, two_theta
     def _aux(self):
         u_L, u_th = self.units['Ltotal'], self.units['two_theta']
-        sL = Fraction(10) ** self.decades['L']
-        Lnom = [Fraction(self.gp[p][0][1]) * sL / lc.si(u_L) for p in range(self.P)]
-        self.L_vals = lc.cast_values([float(v) for v in Lnom], self.dt_aux)
+        Lg = [self.gp[p][0][1] for p in range(self.P)]
+        if lc.is_int(self.dt_aux):
+            v = _int_window(self.rng, self.dt_aux, float(lc.si(u_L)), max(Lg) / min(Lg))
+            self.decades['L'] = float(np.log10(v / min(Lg) * float(lc.si(u_L))))
+        sL = 10.0 ** self.decades['L']
+        Lnom = [float(L) * sL / float(lc.si(u_L)) for L in Lg]
+        self.L_vals = lc.cast_values(Lnom, self.dt_aux)
         self.L_SI = [mpf(lc.exact(v) * lc.si(u_L)) for v in self.L_vals]
         th = []
         for p in range(self.P):
@@ -138,6 +178,9 @@ class Block:
             tt = 2 * mpmath.asin(mpf(Fraction(sn, sd)))
             th.append(float(tt if u_th == 'rad' else tt * 180 / mpmath.pi))
         self.th_vals = lc.cast_values(th, self.dt_aux)
+        if lc.is_int(self.dt_aux):
+            # integer angles: whole radians 1..3 / whole degrees 1..180, all inside (0, pi]
+            self.th_vals = np.clip(self.th_vals, 1, 3 if u_th == 'rad' else 180)
         # s_eff = sin of half the angle float the code sees; two_theta must stay in (0, pi]
         self.s_eff = []
         for p, v in enumerate(self.th_vals):
@@ -146,6 +189,8 @@ class Block:
                 v = np.nextafter(v, v.dtype.type(0))
                 self.th_vals[p] = v
                 a = lc.angle_rad(v, u_th)
+            if not a > 0:
+                raise Skip('angle rounded to zero')
             self.s_eff.append(mpmath.sin(a / 2))
         if self.dt_aux == 'float32' and not all(F32_LO <= abs(float(v)) <= F32_HI for v in self.L_vals):
             self.ok = False
@@ -153,9 +198,10 @@ class Block:
     def aux_var(self, name):
         vals, unit = (self.L_vals, self.units['Ltotal']) if name == 'Ltotal' else (
             self.th_vals, self.units['two_theta'])
-        if not self.pix_dims:
-            return lc.var(vals[0], [], unit, self.dt_aux)
-        return lc.var(vals, ['spectrum'], unit, self.dt_aux)
+        v, dims = (vals[0], []) if not self.pix_dims else (vals, ['spectrum'])
+        if self.pool is not None:
+            return self.pool.get(name, v, dims, unit, self.dt_aux)
+        return lc.var(v, dims, unit, self.dt_aux)
 
     def srat(self, p, g):
         """(s_eff / s)^g as mpf."""
@@ -169,21 +215,27 @@ class Block:
         spec, start = self.spec, self.start
         u = self.units['start']
         P, X = self.P, self.X
-        nominal = np.empty((P, X))
+        usi = float(lc.si(u))
+        base = np.empty((P, X))           # value in unit u at scale 1
         if start == 'tof':
-            st = Fraction(10) ** self.decades['t']
+            expo, dec = 1, 't'
             for p in range(P):
                 for x in range(X):
-                    nominal[p, x] = float(Fraction(self.gp[p][x][0]) * st / lc.si(u))
+                    base[p, x] = float(self.gp[p][x][0]) / usi
         else:
-            a, _, _, _ = spec.physdim[start]
+            expo, dec = spec.physdim[start][0], 'lam'
             c0 = spec.const(start)
-            lam = mpmath.mpf(10) ** self.decades['lam']
             for p in range(P):
                 for x in range(X):
                     v0 = mpf(tab[self.gp[p][x]][0]) * self.srat(p, spec.sinexp[start])
-                    nominal[p, x] = float(v0 * lam ** a * c0 / mpf(lc.si(u)))
+                    base[p, x] = float(v0 * c0 / mpf(lc.si(u)))
+        if lc.is_int(self.dt_data):
+            v = _int_window(self.rng, self.dt_data, usi, float(base.max() / base.min()))
+            self.decades[dec] = float(np.log10(v / base.min()) / expo)
+        nominal = base * (10.0 ** self.decades[dec]) ** expo
         vals = lc.cast_values(nominal, self.dt_data)
+        if lc.is_int(self.dt_data) and (vals.min() < 1 or vals.max() > lc.INT_LIMIT[self.dt_data]):
+            raise Skip('integer data outside the range')
         if self.layout in ('scalar',):
             data = lc.var(vals[0, 0], [], u, self.dt_data)
         elif self.layout == '1d':
@@ -191,10 +243,17 @@ class Block:
         elif self.layout == 'bcast':
             if not all(np.array_equal(vals[0], vals[p]) for p in range(P)):
                 raise MachineryError('broadcast layout with pixel-dependent data')
-            data = lc.var(vals[0], ['x'], u, self.dt_data)
+            data = lc.var(vals[0, 0], [], u, self.dt_data) if self.variant == 'scalar-data' else lc.var(
+                vals[0], ['x'], u, self.dt_data)
+        elif self.layout == 'binned':
+            # every second event table has events outside the bins (before, between and after them)
+            gaps = [self.rng.randrange(3) for _ in range(P + 1)] if self.variant == 'gaps' else None
+            data = lc.binned_var(vals, u, self.dt_data, gaps)
+        elif self.variant:
+            data = lc.strided_view(vals, ['spectrum', 'x'], u, self.dt_data, self.variant)
         else:
             data = lc.var(vals, ['spectrum', 'x'], u, self.dt_data)
-        # per-element Lambda from the floats actually handed over
+        # per-element Lambda from the numbers actually handed over
         self.lam = [[None] * X for _ in range(P)]
         for p in range(P):
             for x in range(X):
@@ -218,22 +277,32 @@ class Block:
                  for x in range(self.X)] for p in range(self.P)]
 
     def as_PX(self, res):
-        """Result values as a (P, X) array (broadcast), or None if the dims are not as expected."""
-        dims = list(res.dims)
-        sizes = dict(res.sizes)
-        for d in dims:
-            if d not in ('spectrum', 'x'):
+        """Result values as a (P, X) array (broadcast), or None if dims / layout are not as expected."""
+        try:
+            if lc.is_binned(res):
+                if list(res.dims) != ['spectrum'] or res.sizes['spectrum'] != self.P:
+                    return None
+                rows = lc.bin_rows(res)
+                if any(len(r) != self.X for r in rows):
+                    return None
+                return np.asarray(rows)
+            dims = list(res.dims)
+            sizes = dict(res.sizes)
+            for d in dims:
+                if d not in ('spectrum', 'x'):
+                    return None
+            if sizes.get('spectrum', self.P) != self.P or sizes.get('x', self.X) != self.X:
                 return None
-        if sizes.get('spectrum', self.P) != self.P or sizes.get('x', self.X) != self.X:
+            v = res.values
+            if dims == ['x', 'spectrum']:
+                v = np.asarray(v).T
+            elif dims == ['x']:
+                v = np.asarray(v)[None, :]
+            elif dims == ['spectrum']:
+                v = np.asarray(v)[:, None]
+            return np.broadcast_to(np.asarray(v), (self.P, self.X))
+        except Exception:  # noqa: BLE001   (a malformed result is reported through the dims clause)
             return None
-        v = res.values
-        if dims == ['x', 'spectrum']:
-            v = np.asarray(v).T
-        elif dims == ['x']:
-            v = np.asarray(v)[None, :]
-        elif dims == ['spectrum']:
-            v = np.asarray(v)[:, None]
-        return np.broadcast_to(np.asarray(v), (self.P, self.X))
 
 
 def _in_f32_range(arr):
@@ -242,18 +311,26 @@ def _in_f32_range(arr):
 
 
 def _relerr(got, want):
-    if not np.isfinite(got):
+    try:
+        if not np.isfinite(got):
+            return float('inf')
+        return float(abs((mpmath.mpf(float(got)) - want) / want))
+    except Exception:  # noqa: BLE001   (non-numeric element)
         return float('inf')
-    return float(abs((mpmath.mpf(float(got)) - want) / want))
 
 
 # ------------------------------------------------------------------------------------ one call
 def call_edge(o, target, kind_in, data, blk):
-    """Call the kernel the *real* graph `o` wires to `target`.  Returns (event fields, result)."""
+    """Call the kernel the *real* graph `o` wires to `target`.  Returns (event fields, result, dims)."""
+    import scipp as sc
+
     f = real_edge(o, target)
+    dt_in = lc.elem_dtype_name(data)
     ev = {'o': o, 'target': target, 'kind_in': kind_in, 'kernel': '', 'status': 'ok', 'params': [],
-          'unit_in': lc.unit_name(data.unit), 'unit_out': '', 'dt_in': lc.dtype_name(data.dtype),
-          'dt_out': '', 'dims_ok': True, 'finite': True, 'close': True, 'rt_ok': True, 'qd_ok': True}
+          'unit_in': lc.elem_unit_name(data), 'unit_out': '', 'dt_in': dt_in,
+          'dt_out': '', 'dims_ok': True, 'finite': True, 'close': True, 'rt_ok': True, 'qd_ok': True,
+          'layout': blk.layout_name, 'has_int': lc.is_int(dt_in), 'binned_in': lc.is_binned(data),
+          'binned_out': lc.is_binned(data), 'again': False}
     if f is None:
         ev['status'] = 'missing'
         return ev, None, set()
@@ -271,6 +348,7 @@ def call_edge(o, target, kind_in, data, blk):
         elif p in ('Ltotal', 'two_theta'):
             kw[p] = blk.aux_var(p)
             dims |= set(kw[p].dims)
+            ev['has_int'] = ev['has_int'] or lc.is_int(blk.dt_aux)
         else:
             ev['status'] = 'ok'     # signature clause of the trace spec reports it
             return ev, None, dims
@@ -279,28 +357,43 @@ def call_edge(o, target, kind_in, data, blk):
     snapshot = {k: v.copy() for k, v in kw.items()}
     try:
         res = f(**kw)
+    except sc.DTypeError as e:
+        ev['status'] = 'unsupported'
+        ev['exc'] = repr(e)[:200]
+        return ev, None, dims
     except Exception as e:  # noqa: BLE001
         ev['status'] = 'raised'
         ev['exc'] = repr(e)[:200]
         return ev, None, dims
-    import scipp as sc
-
+    if not isinstance(res, sc.Variable):
+        ev['status'] = 'raised'
+        ev['exc'] = f'result is a {type(res).__name__}, not a Variable'
+        return ev, None, dims
     for k, v in kw.items():
         if not sc.identical(v, snapshot[k]):
             ev['status'] = 'raised'
             ev['exc'] = f'operand {k} modified'
-    ev['unit_out'] = lc.unit_name(res.unit)
-    ev['dt_out'] = lc.dtype_name(res.dtype)
+    ev['binned_out'] = lc.is_binned(res)
+    try:
+        ev['unit_out'] = lc.elem_unit_name(res)
+        ev['dt_out'] = lc.elem_dtype_name(res)
+    except Exception as e:  # noqa: BLE001
+        ev['status'] = 'raised'
+        ev['exc'] = f'malformed result: {e!r}'[:200]
+        return ev, None, dims
     return ev, res, dims
 
 
 # ------------------------------------------------------------------------------------ replay
-def replay(ctx, spec, sig, blk, tid, events, details, reexpress_p):
+def replay(ctx, spec, sig, blk, tid, events, details, reexpress_p, again=False):
     """Replay one walk shape on one block through the real kernels; one event per call."""
     start, route = sig
     tab = spec.walks[sig]
     rng = ctx.rng
-    data, vals = blk.start_operand(tab)
+    try:
+        data, vals = blk.start_operand(tab)
+    except Skip:
+        return 'skipped'
     if blk.dt_data == 'float32' and not _in_f32_range(vals):
         return 'skipped'
     seen = {start: blk.start_SI}
@@ -308,22 +401,23 @@ def replay(ctx, spec, sig, blk, tid, events, details, reexpress_p):
     complete = True
     for step, (o, ker, target) in enumerate(route):
         want = blk.expected_SI(tab, step, target)
+        dt_now = lc.elem_dtype_name(data)
         out_unit_nominal = 'angstrom' if target in ('wavelength', 'dspacing') else (
-            'meV' if target == 'energy' else '1/' + lc.unit_name(data.unit))
-        dt_expect = 'float32' if lc.dtype_name(data.dtype) == 'float32' else 'float64'
+            'meV' if target == 'energy' else '1/' + lc.elem_unit_name(data))
+        dt_expect = 'float32' if dt_now == 'float32' else 'float64'
         # precision class of the comparison: single as soon as any operand of the scenario is single
-        # (the property promises 1e-11 "in double", i.e. for double operands)
+        # (the property promises 1e-11 "in double", i.e. for double operands); integers count as double
         prec = 'float32' if 'float32' in (blk.dt_data, blk.dt_aux, dt_expect) else 'float64'
         if dt_expect == 'float32':
             f = lc.UNITS.get(out_unit_nominal)
             wv = [float(w / mpf(f[1])) for row in want for w in row] if f else [1.0]
-            if not (_in_f32_range(wv) and _in_f32_range(data.values)):
+            if not (_in_f32_range(wv) and _in_f32_range(lc.flat_values(data))):
                 return 'skipped' if step == 0 else 'truncated'
         ev, res, dims = call_edge(o, target, kind, data, blk)
-        ev.update(ev='call', tid=tid, step=step)
-        det = {'walk': [start] + [r[2] for r in route], 'step': step, 'layout': blk.layout,
+        ev.update(ev='call', tid=tid, step=step, again=bool(again))
+        det = {'walk': [start] + [r[2] for r in route], 'step': step, 'layout': blk.layout_name,
                'units': dict(blk.units), 'decades': dict(blk.decades), 'dt_data': blk.dt_data,
-               'dt_aux': blk.dt_aux, 'unit_in': ev['unit_in']}
+               'dt_aux': blk.dt_aux, 'unit_in': ev['unit_in'], 'pooled_aux_objects': blk.pool is not None}
         events.append(ev)
         details.append(det)
         if res is None:
@@ -337,9 +431,14 @@ def replay(ctx, spec, sig, blk, tid, events, details, reexpress_p):
             # dims / unit clauses of the trace spec report it; values cannot be compared
             complete = False
             break
+        try:
+            arr = np.asarray(arr, dtype='float64')
+        except Exception:  # noqa: BLE001
+            ev['finite'] = False
+            complete = False
+            break
         ev['finite'] = bool(np.all(np.isfinite(arr)))
         fo_m = mpf(fo[1])
-        got_SI = [[mpmath.mpf(float(arr[p, x])) * fo_m for x in range(blk.X)] for p in range(blk.P)]
         worst = (0.0, None)
         for p in range(blk.P):
             for x in range(blk.X):
@@ -352,30 +451,34 @@ def replay(ctx, spec, sig, blk, tid, events, details, reexpress_p):
             p, x = worst[1]
             det['element'] = {'neutron(t,L,sin)': blk.gp[p][x], 'got': float(arr[p, x]),
                               'want': mpmath.nstr(want[p][x] / fo_m, 20), 'unit': ev['unit_out']}
+        if not (ev['finite'] and ev['close'] and ev['dims_ok']):
+            # the walk stops at the first failing call, so that only the kernel at fault is reported
+            # (all earlier calls were within the bound)
+            complete = False
+            break
+        got_SI = [[mpmath.mpf(float(arr[p, x])) * fo_m for x in range(blk.X)] for p in range(blk.P)]
         # round trip: same coordinate seen before in this walk
         if target in seen:
             prev = seen[target]
             rt = max(float(abs((got_SI[p][x] - prev[p][x]) / prev[p][x]))
-                     for p in range(blk.P) for x in range(blk.X)) if ev['finite'] else float('inf')
+                     for p in range(blk.P) for x in range(blk.X))
             ev['rt_ok'] = rt <= 2 * tol
             det['round_trip_relerr'] = rt
         other = 'dspacing' if target == 'Q' else ('Q' if target == 'dspacing' else None)
-        if other and other in seen and ev['finite']:
+        if other and other in seen:
             prev = seen[other]
             qd = max(float(abs(got_SI[p][x] * prev[p][x] / (2 * mpmath.pi) - 1))
                      for p in range(blk.P) for x in range(blk.X))
             ev['qd_ok'] = qd <= 2 * tol
             det['Qd_relerr'] = qd
         seen[target] = got_SI
-        if not (ev['close'] and ev['rt_ok'] and ev['qd_ok'] and ev['finite'] and ev['dims_ok']):
-            # the walk stops at the first failing call, so that only the kernel at fault is reported
-            # (all earlier calls were within the bound)
+        if not (ev['rt_ok'] and ev['qd_ok']):
             complete = False
             break
         # next data operand: the real output, sometimes re-expressed in another unit of its kind
         data = res
         kind = target
-        if rng.random() < reexpress_p and target != 'dspacing':
+        if rng.random() < reexpress_p and target != 'dspacing' and not lc.is_binned(res):
             nu = rng.choice(KIND_UNITS[target])
             try:
                 cand = res.to(unit=lc.scu(nu), copy=True)
@@ -413,7 +516,10 @@ def agreement(ctx, spec, blk, tid, events, details):
     """Evaluate different routes of the graph to one quantity with the real kernels, compare got vs got."""
     start = blk.start
     sig0 = next(s for s in spec.walks if s[0] == start)
-    data0, vals = blk.start_operand(spec.walks[sig0])
+    try:
+        data0, vals = blk.start_operand(spec.walks[sig0])
+    except Skip:
+        return
     if blk.dt_data == 'float32' and not _in_f32_range(vals):
         return
     tol = TOL['float32' if 'float32' in (blk.dt_data, blk.dt_aux) else 'float64']
@@ -422,7 +528,7 @@ def agreement(ctx, spec, blk, tid, events, details):
         for r in routes:
             data, kind, ok = data0, start, True
             for o, tg in r:
-                if lc.dtype_name(data.dtype) == 'float32' and not _in_f32_range(data.values):
+                if lc.elem_dtype_name(data) == 'float32' and not _in_f32_range(lc.flat_values(data)):
                     ok = False
                     break
                 ev, res, _ = call_edge(o, tg, kind, data, blk)
@@ -436,8 +542,11 @@ def agreement(ctx, spec, blk, tid, events, details):
         arrs = []
         for o in outs:
             a = blk.as_PX(o)
-            f = lc.UNITS.get(lc.unit_name(o.unit))
-            arrs.append(None if a is None or f is None else np.asarray(a, dtype='float64') * float(f[1]))
+            f = lc.UNITS.get(lc.elem_unit_name(o))
+            try:
+                arrs.append(None if a is None or f is None else np.asarray(a, dtype='float64') * float(f[1]))
+            except Exception:  # noqa: BLE001
+                arrs.append(None)
         if any(a is None for a in arrs):
             agree, worst = False, float('inf')
         else:
@@ -449,22 +558,37 @@ def agreement(ctx, spec, blk, tid, events, details):
             agree = worst <= 2 * tol
         events.append({'ev': 'agree', 'tid': tid, 'from': start, 'target': target,
                        'routes': [[list(e) for e in r] for r in routes], 'agree': bool(agree)})
-        details.append({'layout': blk.layout, 'units': dict(blk.units), 'decades': dict(blk.decades),
+        details.append({'layout': blk.layout_name, 'units': dict(blk.units), 'decades': dict(blk.decades),
                         'dt_data': blk.dt_data, 'dt_aux': blk.dt_aux, 'worst_rel_difference': worst})
-        ctx.case(nontrivial_id=('agree', start, target, blk.layout, blk.dt_data, blk.dt_aux,
+        ctx.case(nontrivial_id=('agree', start, target, blk.layout_name, blk.dt_data, blk.dt_aux,
                                 tuple(sorted(blk.units.items()))))
 
 
 # ------------------------------------------------------------------------------------ variants
-def make_block(ctx, spec, start, layout, dt_data, dt_aux, covered):
+INT_UNITS = {   # units in which integers are natural (an integer number of seconds or kilometres is not)
+    'tof': ('ns', 'us', 'ms'), 'Ltotal': ('mm', 'cm', 'm', 'um'), 'wavelength': ('angstrom', 'nm', 'um', 'mm'),
+    'energy': ('J', 'keV', 'eV'), 'Q': ('1/m', '1/cm', '1/mm', '1/um', '1/nm'),
+}
+
+
+def make_block(ctx, spec, start, layout, dt_data, dt_aux, covered, pool=None):
     rng = ctx.rng
     grid = spec.grid
     Ts = sorted({g[0] for g in grid})
     Ls = sorted({g[1] for g in grid})
     Ss = sorted({(g[2], g[3]) for g in grid})
-    nx = {'scalar': 1, '1d': min(4, len(Ts)), 'bcast': min(4, len(Ts)), 'perpixel': min(3, len(Ts))}[layout]
-    npix = {'scalar': 1, '1d': 1, 'bcast': min(5, len(Ls) * len(Ss)), 'perpixel': 3}[layout]
-    # prefer grid neutrons not covered yet
+    variant = ''
+    if layout == 'perpixel':
+        variant = rng.choice(['', '', 'T', 'view', 'slice'])
+    if layout == 'binned':
+        variant = rng.choice(['', 'gaps'])
+    if layout == 'bcast' and start == 'tof' and rng.random() < 0.25:
+        variant = 'scalar-data'          # one 0-d time, per-pixel auxiliary operands
+    nx = {'scalar': 1, '1d': rng.choice([1, min(4, len(Ts))]), 'bcast': 1 if variant else min(4, len(Ts)),
+          'perpixel': min(3, len(Ts)), 'binned': min(3, len(Ts))}[layout]
+    npix = {'scalar': 1, '1d': 1, 'bcast': min(5, len(Ls) * len(Ss)), 'perpixel': 3, 'binned': 4}[layout]
+    if layout == 'perpixel' and variant:
+        npix = 2                     # P != X, so that a transposed table cannot pass for the table
     tsel = rng.sample(Ts, nx)
     pix = rng.sample([(L, s) for L in Ls for s in Ss], npix)
     if layout == 'bcast' and start == 'Q':
@@ -475,8 +599,9 @@ def make_block(ctx, spec, start, layout, dt_data, dt_aux, covered):
     else:
         xs = [(t, None) for t in tsel]
         ps = list(pix)
-    units = {'Ltotal': rng.choice(lc.LENGTH_UNITS), 'two_theta': rng.choice(lc.ANGLE_UNITS),
-             'start': rng.choice(KIND_UNITS[start])}
+    units = {'Ltotal': rng.choice(INT_UNITS['Ltotal'] if lc.is_int(dt_aux) else lc.LENGTH_UNITS),
+             'two_theta': rng.choice(lc.ANGLE_UNITS),
+             'start': rng.choice(INT_UNITS[start] if lc.is_int(dt_data) else KIND_UNITS[start])}
     if dt_data == 'float32' or dt_aux == 'float32':
         dec = {'t': rng.randrange(-6, 3), 'L': rng.randrange(-3, 4), 'lam': rng.randrange(-11, -6)}
     else:
@@ -484,10 +609,17 @@ def make_block(ctx, spec, start, layout, dt_data, dt_aux, covered):
         if start in ('energy', 'Q'):
             # keep the start quantity itself inside 1e-9..1e9 SI: E = H^2/(MN Lambda^2) * r, Q = pi r / Lambda
             dec['lam'] = rng.randrange(-24, -15) if start == 'energy' else rng.randrange(-7, 8)
-    blk = Block(spec, rng, start, layout, xs, ps, dt_data, dt_aux, units, dec)
+    blk = Block(spec, rng, start, layout, xs, ps, dt_data, dt_aux, units, dec, variant, pool)
     for row in blk.gp:
         covered.update(row)
     return blk
+
+
+# single precision first: the first use of a unit by a walk shape is then usually a single-precision one (a constant
+# remembered with its first caller's precision shows in the double-precision replays that follow)
+FLOAT_COMBOS = (('float32', 'float32'), ('float64', 'float64'), ('float64', 'float32'), ('float32', 'float64'))
+INT_COMBOS = (('int64', 'float64'), ('float64', 'int64'), ('int64', 'int64'), ('float32', 'int64'),
+              ('int32', 'float64'), ('float64', 'int32'))
 
 
 def run(ctx):
@@ -499,13 +631,18 @@ def run(ctx):
                '1e-18 <= |v| <= 1e18, so that the squares the formulas need are normal float32 numbers')
     ctx.assume('the angle handed to the code is the float nearest to 2 asin(s); the reference uses the sine of '
                'that float (mpmath), the specification supplies the rest of the term exactly')
-    workers = 16
+    ctx.assume('integer-typed operands (int64 / int32): values >= 1 whose squares are representable (<= 2e9 / '
+               '<= 30000) and whose SI value lies in 1e-9..1e9; results are held to the double-precision bound; a '
+               'scipp DTypeError for a call with an integer operand is recorded as "not supported"')
+    ctx.assume('event data: the data operand is a binned variable over the pixels, auxiliary operands per pixel')
+    workers = int(os.environ.get('VERIF_TLC_WORKERS', 16))   # other builders share the machine
     # ---- 1. design: exhaustive model checking + negative controls
     cfg = 'MC_Kinematics_thorough.cfg' if ctx.thorough else 'MC_Kinematics.cfg'
     res = ctx.tlc('conv/MC_Kinematics.tla', cfg, workers=workers, timeout=1200)
     require_ok(ctx, res, 'Kinematics model')
     ctx.tlc('conv/MC_Kinematics.tla', 'Neg_Kinematics.cfg', workers=4, expect_error=True, timeout=300)
     ctx.tlc('conv/MC_Kinematics.tla', 'Neg_Kinematics_q.cfg', workers=4, expect_error=True, timeout=300)
+    ctx.tlc('conv/MC_Kinematics.tla', 'Neg_Kinematics_stale_angle.cfg', workers=4, expect_error=True, timeout=300)
 
     # ---- 2. the specification's walks with exact values (workers=1: PrintT output is sequential)
     ecfg = 'Emit_Kinematics_thorough.cfg' if ctx.thorough else 'Emit_Kinematics.cfg'
@@ -515,49 +652,80 @@ def run(ctx):
     ctx.extra['walk_shapes'] = len(spec.walks)
     ctx.extra['grid_neutrons'] = len(spec.grid)
     ctx.extra['spec_walks_emitted'] = sum(len(v) for v in spec.walks.values())
+    ctx.extra['smallest_sin_theta_on_grid'] = str(min(Fraction(g[2], g[3]) for g in spec.grid))
 
     # ---- 3. replay + record
     events = graph_events()
     details = [{} for _ in events]
     tid = 0
     covered: set = set()
+    pool = lc.OperandPool()
     layouts = ('scalar', '1d', 'bcast', 'perpixel')
-    dtypes = (('float64', 'float64'), ('float32', 'float32'), ('float64', 'float32'), ('float32', 'float64'))
     ndraw = 24 if ctx.thorough else 3
+    nint = 6 if ctx.thorough else 1
     stats = {'ok': 0, 'skipped': 0, 'truncated': 0, 'incomplete': 0}
+    by_class: dict = {}
+    done = []
     sigs = sorted(spec.walks)
+    plan = []
     for sig in sigs:
-        for layout in layouts:
-            for dt_data, dt_aux in dtypes:
-                for _ in range(ndraw):
-                    blk = make_block(ctx, spec, sig[0], layout, dt_data, dt_aux, covered)
-                    if not blk.ok:
-                        stats['skipped'] += 1
-                        continue
-                    n0 = len(events)
-                    out = replay(ctx, spec, sig, blk, tid, events, details, reexpress_p=0.35)
-                    stats[out] += 1
-                    if out != 'skipped':
-                        ctx.case(nontrivial_id=(sig, blk.layout, dt_data, dt_aux, tuple(sorted(blk.units.items())),
-                                                tuple(sorted(blk.decades.items()))) if out == 'ok' else None)
-                        if tid < 2:
-                            ctx.sample({'walk': [sig[0]] + [r[2] for r in sig[1]], 'layout': blk.layout,
-                                        'neutrons': blk.gp, 'units': blk.units, 'decades': blk.decades,
-                                        'events': events[n0:]})
-                    tid += 1
+        for layout in layouts + ('binned',):
+            for dts in FLOAT_COMBOS:
+                plan.append((sig, layout, dts, ndraw if layout != 'binned' else max(1, ndraw * 2 // 3)))
+            for dts in INT_COMBOS:
+                plan.append((sig, layout, dts, nint))
+    for sig, layout, (dt_data, dt_aux), n in plan:
+        for _ in range(n):
+            # every second block takes its auxiliary operands from objects that live across calls
+            blk = make_block(ctx, spec, sig[0], layout, dt_data, dt_aux, covered,
+                             pool if ctx.rng.random() < 0.5 else None)
+            if not blk.ok:
+                stats['skipped'] += 1
+                continue
+            n0 = len(events)
+            out = replay(ctx, spec, sig, blk, tid, events, details, reexpress_p=0.35)
+            stats[out] += 1
+            if out != 'skipped':
+                cls = (blk.layout_name, dt_data, dt_aux)
+                by_class[cls] = by_class.get(cls, 0) + (out == 'ok')
+                ctx.case(nontrivial_id=(sig, blk.layout_name, dt_data, dt_aux, tuple(sorted(blk.units.items())),
+                                        tuple(sorted(blk.decades.items()))) if out == 'ok' else None)
+                if out == 'ok':
+                    done.append((sig, blk))
+                if tid < 2:
+                    ctx.sample({'walk': [sig[0]] + [r[2] for r in sig[1]], 'layout': blk.layout_name,
+                                'neutrons': blk.gp, 'units': blk.units, 'decades': blk.decades,
+                                'events': events[n0:]})
+            tid += 1
     # route agreement, got vs got
     nag = 40 if ctx.thorough else 10
     for start in AGREE_ROUTES:
-        for layout in layouts:
-            for dt_data, dt_aux in dtypes:
-                for _ in range(nag if layout != 'scalar' else max(2, nag // 4)):
+        for layout in layouts + ('binned',):
+            for dt_data, dt_aux in FLOAT_COMBOS:
+                for _ in range(nag if layout not in ('scalar', 'binned') else max(2, nag // 4)):
                     blk = make_block(ctx, spec, start, layout, dt_data, dt_aux, covered)
                     if blk.ok:
                         agreement(ctx, spec, blk, tid, events, details)
                     tid += 1
+    # second use: a sample of the replays done so far, once more, in another order (double-precision and
+    # integer scenarios first: they are the ones a remembered single-precision constant would spoil)
+    ctx.rng.shuffle(done)
+    done.sort(key=lambda sb: 'float32' in (sb[1].dt_data, sb[1].dt_aux))
+    nagain = 1500 if ctx.thorough else 350
+    again = {'ok': 0, 'skipped': 0, 'truncated': 0, 'incomplete': 0}
+    for sig, blk in done[:nagain]:
+        out = replay(ctx, spec, sig, blk, tid, events, details, reexpress_p=0.35, again=True)
+        again[out] += 1
+        ctx.case()
+        tid += 1
     ctx.extra['replays'] = stats
+    ctx.extra['replayed_again_at_the_end'] = again
+    ctx.extra['complete_replays_by_layout_and_dtypes'] = {'/'.join(k): v for k, v in sorted(by_class.items())}
+    ctx.extra['calls_with_reused_operand_objects'] = pool.reused
     ctx.extra['grid_neutrons_used_as_elements'] = len(covered)
     ctx.extra['kernel_call_events'] = sum(1 for e in events if e['ev'] == 'call')
+    ctx.extra['calls_not_supported_for_integer_operands'] = sum(
+        1 for e in events if e.get('status') == 'unsupported')
     ctx.extra['tolerances'] = TOL
     mx = {'float64': 0.0, 'float32': 0.0}
     for d in details:
@@ -567,10 +735,9 @@ def run(ctx):
     ctx.extra['max_relative_error_observed'] = mx
     if len(covered) < len(spec.grid):
         ctx.extra['warning'] = f'only {len(covered)} of {len(spec.grid)} grid neutrons were used'
-    if stats['ok'] < 10:
-        raise MachineryError(f'vacuous run: {stats}')
 
     # ---- 4. TLC judges every event
+    nviol = 0
     for line, _tid, clause in lc.run_trace(ctx, 'conv/Trace_Kinematics.tla', events, 'Trace_Kinematics'):
         ev, det = events[line - 1], details[line - 1]
         if ev['ev'] == 'graph':
@@ -579,8 +746,25 @@ def run(ctx):
             key = f'routes from {ev["from"]} to {ev["target"]}: {clause} (data {det.get("dt_data")})'
         else:
             who = ev['kernel'] or f'{ev["o"]}->{ev["target"]}'
-            key = f'{who}: {clause} (data {ev["dt_in"]})'
+            what = f'data {ev["dt_in"]}'
+            if ev['binned_in']:
+                what += ', event layout'
+            if ev['has_int'] and not lc.is_int(ev['dt_in']):
+                what += ', integer auxiliary operand'
+            key = f'{who}: {clause} ({what})'
+            if ev['again'] and not any(k.startswith(key) for k, _ in ctx.violations):
+                key += ' [only when replayed at the end of the run]'
         ctx.violation(key, {'event': ev, 'context': det})
+        nviol += 1
+    # vacuity is judged last and only on a tree without violations: a broken implementation must end as a
+    # violation (exit 1), not as a machinery failure
+    if nviol == 0:
+        if stats['ok'] < 10:
+            raise MachineryError(f'vacuous run: {stats}')
+        for cls in [(lay, 'float64', 'float64') for lay in ('scalar', '1d', 'bcast', 'perpixel', 'binned')] + [
+                ('perpixel', 'int64', 'float64'), ('1d', 'float64', 'int64')]:
+            if not any(k[0].split('/')[0] == cls[0] and k[1:] == cls[1:] and v for k, v in by_class.items()):
+                raise MachineryError(f'vacuous run: no complete replay of class {cls}')
 
 
 META = {
@@ -589,12 +773,14 @@ META = {
                  'model-checked by TLC; TLC-enumerated walks replayed into the real kernels (fetched through '
                  'the real graph tables); every real call recorded and judged by a TLC trace specification',
     'text': 'TLC proves route agreement, round trips and Q d = 2 pi for every walk of <= 4 conversions on the '
-            'rational grid. Each walk shape is then replayed through the real kernels with accumulated real '
-            'outputs over decade scalings 1e-9..1e9, all unit choices, float32/float64 data and auxiliary '
-            'operands and scalar / 1-d / broadcast / per-pixel layouts; results are compared with the '
-            'specification\'s exact rational times exact constants (60-digit mpmath) at 1e-11 / 1e-5, and TLC '
-            'judges kernel wiring, units, precision class, dims and all closeness flags of every recorded call.',
+            'rational grid (scattering angles from 2e-6 rad to pi). Each walk shape is then replayed through the '
+            'real kernels with accumulated real outputs over scalings 1e-9..1e9, all unit choices, float64 / '
+            'float32 / int64 / int32 data and auxiliary operands and scalar / 1-d / broadcast / per-pixel (also '
+            'transposed and strided) / event layouts, with operand objects reused across calls; results are '
+            'compared with the specification\'s exact rational times exact constants (60-digit mpmath) at '
+            '1e-11 / 1e-5, and TLC judges kernel wiring, units, precision class, dims, layout and all closeness '
+            'flags of every recorded call; a sample is replayed again at the end in another order.',
     'note': 'Trusted: TLC, scipp (operand construction, unit equality), mpmath. Numeric closeness is decided by '
             'the harness on the enumerated points, not by TLC. float32 scenarios are limited to values whose '
-            'squares are normal float32 numbers.',
+            'squares are normal float32 numbers; integer operands to values whose squares are representable.',
 }
